@@ -84,6 +84,7 @@ Section Curve.
   Hypothesis add1_zero_l : forall a, add1 zero1 a = a.
   Hypothesis add1_zero_r : forall a, add1 a zero1 = a.
   Hypothesis add1_neg : forall a, add1 a (neg1 a) = zero1.
+  Hypothesis add1_comm : forall a b, add1 a b = add1 b a.
   Hypothesis mul1_mod : forall a s, mul1 a (s mod FR_MODULUS) = mul1 a s.
   Hypothesis mul1_add_scalar : forall a s t, mul1 a (s + t) = add1 (mul1 a s) (mul1 a t).
   Hypothesis mul1_add_point : forall a b s, mul1 (add1 a b) s = add1 (mul1 a s) (mul1 b s).
@@ -91,6 +92,7 @@ Section Curve.
   Hypothesis add2_zero_l : forall a, add2 zero2 a = a.
   Hypothesis add2_zero_r : forall a, add2 a zero2 = a.
   Hypothesis add2_neg : forall a, add2 a (neg2 a) = zero2.
+  Hypothesis add2_comm : forall a b, add2 a b = add2 b a.
   Hypothesis mul2_mod : forall a s, mul2 a (s mod FR_MODULUS) = mul2 a s.
   Hypothesis mul2_add_scalar : forall a s t, mul2 a (s + t) = add2 (mul2 a s) (mul2 a t).
   (* FQ12 and the pairing *)
@@ -175,6 +177,14 @@ Section Curve.
     - eapply g2_scalar_distributivity; eassumption.
   Qed.
 
+  (* commutativity *)
+  Theorem C21_add_commutes :
+    (forall a b va vb, e1 a va -> e1 b vb ->
+       exists vr, ex BADD [BG1 va; BG1 vb] = Ok (BG1 vr) /\ ex BADD [BG1 vb; BG1 va] = Ok (BG1 vr)) /\
+    (forall a b va vb, e2 a va -> e2 b vb ->
+       exists vr, ex BADD [BG2 va; BG2 vb] = Ok (BG2 vr) /\ ex BADD [BG2 vb; BG2 va] = Ok (BG2 vr)).
+  Proof. split; intros; [eapply g1_comm | eapply g2_comm]; eassumption. Qed.
+
   (* PAIRING_CHECK is True exactly when the product of the pairings of the decoded points is one;
      it fails only if some element does not decode *)
   Theorem C21_pairing_check_is_product : forall l pts,
@@ -192,6 +202,7 @@ Print Assumptions C21_point_roundtrip.
 Print Assumptions C21_ops_are_group_ops.
 Print Assumptions C21_g1_group_laws.
 Print Assumptions C21_g2_group_laws.
+Print Assumptions C21_add_commutes.
 Print Assumptions C21_pairing_check_is_product.
 Print Assumptions C21_pairing_check_inverse_pair.
 
